@@ -57,6 +57,10 @@ class _Flatten(ast.NodeTransformer):
                 and not node.args[0].args and not node.args[0].keywords:
             node.args = [node.args[0].func.value]  # iterating a dict iterates its keys
             return node
+        # binascii.hexlify(b).decode() is b.hex()
+        if isinstance(f, ast.Attribute) and f.attr == "decode" and not node.args and not node.keywords and isinstance(f.value, ast.Call) \
+                and norm(f.value.func) in ("binascii.hexlify", "hexlify") and len(f.value.args) == 1 and not f.value.keywords:
+            return ast.copy_location(ast.Call(func=ast.Attribute(value=f.value.args[0], attr="hex", ctx=ast.Load()), args=[], keywords=[]), node)
         if isinstance(f, ast.Name) and f.id == "getattr" and len(node.args) == 2 and not node.keywords \
                 and isinstance(node.args[1], ast.Constant) and isinstance(node.args[1].value, str) and node.args[1].value.isidentifier():
             return ast.copy_location(ast.Attribute(value=node.args[0], attr=node.args[1].value, ctx=ast.Load()), node)
@@ -76,8 +80,31 @@ class _Flatten(ast.NodeTransformer):
             return self.visit_JoinedStr(ast.copy_location(ast.JoinedStr(values=vals), node))
         return node
 
+    def visit_BinOp(self, node):
+        self.generic_visit(node)
+        # concatenation of text pieces is one f-string
+        if isinstance(node.op, ast.Add):
+            def parts(x):
+                if isinstance(x, ast.JoinedStr):
+                    return list(x.values)
+                if isinstance(x, ast.Constant) and isinstance(x.value, str):
+                    return [x]
+                return None
+            a, b = parts(node.left), parts(node.right)
+            if a is not None and b is not None and (isinstance(node.left, ast.JoinedStr) or isinstance(node.right, ast.JoinedStr)):
+                return self.visit_JoinedStr(ast.copy_location(ast.JoinedStr(values=a + b), node))
+        return node
+
     def visit_JoinedStr(self, node):
         self.generic_visit(node)
+        for v in node.values:
+            # a format spec that is built from constants only (`{x: <{20}}`) is that constant spec (`{x: <20}`)
+            if isinstance(v, ast.FormattedValue) and isinstance(v.format_spec, ast.JoinedStr):
+                sv = v.format_spec.values
+                if sv and all(isinstance(x, ast.Constant) or (isinstance(x, ast.FormattedValue) and isinstance(x.value, ast.Constant)
+                                                              and x.conversion == -1 and x.format_spec is None) for x in sv):
+                    v.format_spec = ast.JoinedStr(values=[ast.Constant(value="".join(
+                        str(x.value) if isinstance(x, ast.Constant) else str(x.value.value) for x in sv))])
         out = []
         for v in node.values:
             if isinstance(v, ast.FormattedValue) and v.conversion == -1 and v.format_spec is None and isinstance(v.value, ast.JoinedStr):
@@ -109,6 +136,7 @@ def pattern_expr(src):
 
 def text(e):
     needs = any(isinstance(n, ast.JoinedStr) or (isinstance(n, ast.Call) and isinstance(n.func, ast.Name) and n.func.id == "getattr")
+                or (isinstance(n, ast.Attribute) and n.attr == "decode")
                 or (isinstance(n, ast.Attribute) and n.attr == "keys")
                 or (isinstance(n, ast.Call) and isinstance(n.func, ast.Attribute) and n.func.attr == "join") for n in ast.walk(e))
     return norm(flatten(e)) if needs else norm(e)
